@@ -13,6 +13,7 @@
   all of `Nat`.
 -/
 import StVerif.Lemmas.Split
+import StVerif.Lemmas.Utf8Split
 
 namespace StVerif.Props.C09
 open StVerif StVerif.Split StVerif.Search StVerif.Lemmas.Split
@@ -222,6 +223,27 @@ theorem split_forms_agree (cs : CaseMode) (s : List Nat) (max : Nat) :
     rw [split_char_eq_spec cs s c max h0 h1, split_eq_spec]
   · intro p hok
     rw [split_cstr_eq_spec cs s p max hok, split_eq_spec]
+
+/-- every piece of the split of well-formed UTF-8 text by a well-formed separator is well-formed
+    UTF-8 again (occurrences begin and end on character boundaries, in both case modes) -/
+theorem split_pieces_utf8 (cs : CaseMode) (s sep : List Nat) (max : Nat)
+    (hvs : Utf.validateUtf8 s = 0) (hvp : Utf.validateUtf8 sep = 0) :
+    ∀ piece ∈ Spec.Split.split cs sep max s, Utf.validateUtf8 piece = 0 := by
+  intro piece hp
+  exact (StVerif.Lemmas.Utf8Split.valid_iff piece).1
+    (StVerif.Lemmas.Utf8Split.splitAux_valid cs sep ((StVerif.Lemmas.Utf8Split.valid_iff sep).2 hvp) (s.length + 1) max s
+      ((StVerif.Lemmas.Utf8Split.valid_iff s).2 hvs) piece hp)
+
+/-- on a well-formed UTF-8 subject and separator the re-validating `const char*` overload returns
+    the same pieces as the `ST::string` overload: all three overloads agree -/
+theorem split_forms_agree_utf8 (cs : CaseMode) (s p : List Nat) (max : Nat) (hs : s.length < hugeBufferSize)
+    (hvs : Utf.validateUtf8 s = 0) (hvp : Utf.validateUtf8 (cBytes p) = 0) :
+    splitCstr cs s (some p) max = splitStr cs s (cBytes p) max := by
+  rw [split_eq_spec]
+  apply split_cstr_eq_spec
+  intro piece hp
+  exact ⟨Nat.lt_of_le_of_lt (pieces_length_le cs (cBytes p) (s.length + 1) max s piece hp) hs,
+    fun _ => split_pieces_utf8 cs s (cBytes p) max hvs hvp piece hp⟩
 
 /-- the four `replace` overloads agree: a `const char*` argument (taken with `assume_valid`, or any
     mode when it is UTF-8) is the `ST::string` of the bytes before its first NUL; a null pointer is
